@@ -4,6 +4,7 @@ import (
 	"fmt"
 	"go/token"
 	"go/types"
+	"sort"
 	"strings"
 
 	"golang.org/x/tools/go/ssa"
@@ -80,6 +81,16 @@ func init() {
 			}},
 			{Name: "rewrite: signature check behind a bool helper", Edits: []Edit{
 				{File: fl, Old: "\tif !crypto.Verify(*f.signingPubKey, cmd.SignableBytes(), cmd.Signature) {\n\t\treturn fmt.Errorf(\"signature verification failed\")\n\t}\n\n\treturn nil\n}\n\n// verifyWakeCommand", New: "\tif !f.c28SigOK(cmd.SignableBytes(), cmd.Signature) {\n\t\treturn fmt.Errorf(\"signature verification failed\")\n\t}\n\n\treturn nil\n}\n\nfunc (f *Flooder) c28SigOK(msg []byte, sig [64]byte) bool {\n\treturn crypto.Verify(*f.signingPubKey, msg, sig)\n}\n\n// verifyWakeCommand"},
+			}},
+			{Name: "rewrite: wake handler through a shared admit helper taking a struct with a verification closure, method values and a skew helper", Edits: []Edit{
+				{File: fl, Old: "\tif containsAgent(cmd.SeenBy, f.localID) {\n\t\treturn false\n\t}\n\n\t// Verify signature if signing key is configured\n\tif err := f.verifyWakeCommand(cmd); err != nil {\n\t\tf.logger.Warn(\"wake command rejected\",\n\t\t\t\"origin\", cmd.OriginAgent.ShortString(),\n\t\t\t\"command_id\", cmd.CommandID,\n\t\t\t\"from_peer\", fromPeer.ShortString(),\n\t\t\tlogging.KeyError, err)\n\t\treturn false\n\t}\n\n\t// Only an authenticated wake command is recorded as seen (see HandleSleepCommand).\n\tif !f.markSleepCmdSeen(cmd.OriginAgent, cmd.CommandID, fromPeer) {\n\t\treturn false\n\t}\n\n\tf.logger.Debug(\"new wake command received\",", New: "\tunsigned := cmd.IsZeroSignature()\n\tif !f.c28Admit(\"wake\", fromPeer, c28Inbound{origin: cmd.OriginAgent, id: cmd.CommandID, seenBy: cmd.SeenBy, signed: !unsigned, verify: func() error {\n\t\treturn f.c28CheckAuth(unsigned, cmd.Timestamp, &cmd.Signature, cmd.SignableBytes)\n\t}}) {\n\t\treturn false\n\t}\n\n\tf.logger.Debug(\"new wake command received\","},
+				{File: fl, Old: "// HandleWakeCommand processes an incoming WAKE_COMMAND frame.\n", New: "type c28Inbound struct {\n\torigin identity.AgentID\n\tid     uint64\n\tseenBy []identity.AgentID\n\tsigned bool\n\tverify func() error\n}\n\nfunc (f *Flooder) c28Admit(kind string, fromPeer identity.AgentID, in c28Inbound) bool {\n\tif containsAgent(in.seenBy, f.localID) {\n\t\treturn false\n\t}\n\tif authErr := in.verify(); authErr != nil {\n\t\tf.logger.Warn(kind+\" command rejected\", \"origin\", in.origin.ShortString(), logging.KeyError, authErr)\n\t\treturn false\n\t}\n\treturn f.markSleepCmdSeen(in.origin, in.id, fromPeer)\n}\n\nfunc (f *Flooder) c28CheckAuth(unsigned bool, timestamp uint64, signature *[protocol.SignatureSize]byte, signable func() []byte) error {\n\tpubKey := f.signingPubKey\n\tswitch {\n\tcase pubKey == nil:\n\t\treturn nil\n\tcase unsigned:\n\t\treturn fmt.Errorf(\"signature required but missing\")\n\t}\n\tif age, window := c28Age(timestamp), f.timestampWindow; !(age <= window) {\n\t\treturn fmt.Errorf(\"timestamp outside validity window (%v old, max %v)\", age, window)\n\t}\n\tif crypto.Verify(*pubKey, signable(), *signature) {\n\t\treturn nil\n\t}\n\treturn fmt.Errorf(\"signature verification failed\")\n}\n\nfunc c28Age(timestamp uint64) time.Duration {\n\tage := time.Since(time.Unix(int64(timestamp), 0))\n\tif age >= 0 {\n\t\treturn age\n\t}\n\treturn -age\n}\n\n// HandleWakeCommand processes an incoming WAKE_COMMAND frame.\n"},
+			}},
+			{Name: "rewrite: queued wake applied in a helper with early returns, handler result in a local", Edits: []Edit{
+				{File: ag, Old: "\tif state.WakeCmd != nil && a.sleepMgr != nil && a.flooder.HandleWakeCommand(peerID, state.WakeCmd) {\n\t\ta.logger.Info(\"waking from queued command\")\n\t\tif err := a.sleepMgr.Wake(); err != nil {\n\t\t\ta.logger.Error(\"failed to wake from queued command\",\n\t\t\t\tlogging.KeyError, err)\n\t\t}\n\t}\n}\n", New: "\ta.c28ApplyQueuedWake(peerID, state.WakeCmd)\n}\n\nfunc (a *Agent) c28ApplyQueuedWake(peerID identity.AgentID, wakeCmd *protocol.WakeCommand) {\n\tif a.sleepMgr == nil || wakeCmd == nil {\n\t\treturn\n\t}\n\tif accepted := a.flooder.HandleWakeCommand(peerID, wakeCmd); !accepted {\n\t\treturn\n\t}\n\ta.logger.Info(\"waking from queued command\")\n\tif err := a.sleepMgr.Wake(); err != nil {\n\t\ta.logger.Error(\"failed to wake from queued command\",\n\t\t\tlogging.KeyError, err)\n\t}\n}\n"},
+			}},
+			{Name: "signature checked over the origin only (id and timestamp unsigned)", ExpectRule: "C28.R3", ExpectKey: "arguments", Edits: []Edit{
+				{File: fl, Old: "\tif !crypto.Verify(*f.signingPubKey, cmd.SignableBytes(), cmd.Signature) {\n\t\treturn fmt.Errorf(\"signature verification failed\")\n\t}\n\n\treturn nil\n}\n\n// FloodSleepCommand", New: "\tif !crypto.Verify(*f.signingPubKey, cmd.OriginAgent[:], cmd.Signature) {\n\t\treturn fmt.Errorf(\"signature verification failed\")\n\t}\n\n\treturn nil\n}\n\n// FloodSleepCommand"},
 			}},
 			{Name: "rewrite: window test respelled with Abs and swapped operands", Edits: []Edit{
 				{File: fl, Old: "\tif timeDiff < 0 {\n\t\ttimeDiff = -timeDiff\n\t}\n\tif timeDiff > f.timestampWindow {\n\t\treturn fmt.Errorf(\"timestamp outside validity window (%v old, max %v)\", timeDiff, f.timestampWindow)\n\t}\n\n\t// Verify Ed25519 signature\n\tif !crypto.Verify(*f.signingPubKey, cmd.SignableBytes(), cmd.Signature) {\n\t\treturn fmt.Errorf(\"signature verification failed\")\n\t}\n\n\treturn nil\n}\n\n// verifyWakeCommand", New: "\ttimeDiff = timeDiff.Abs()\n\tif !(f.timestampWindow >= timeDiff) {\n\t\treturn fmt.Errorf(\"timestamp outside validity window (%v old, max %v)\", timeDiff, f.timestampWindow)\n\t}\n\n\t// Verify Ed25519 signature\n\tif ok := crypto.Verify(*f.signingPubKey, cmd.SignableBytes(), cmd.Signature); !ok {\n\t\treturn fmt.Errorf(\"signature verification failed\")\n\t}\n\n\treturn nil\n}\n\n// verifyWakeCommand"},
@@ -251,8 +262,8 @@ func (cx *c28Ctx) semanticVerifiers() {
 				args[i] = kit.PxS("cmd")
 			}
 		}
-		accBad, _, tr1 := c28RunVerifier(cx, fn, args, 2_000_000, 300, c28Scenario{"", 0, false, true}, errRes)
-		accGood, _, tr2 := c28RunVerifier(cx, fn, args, 2_000_000, 300, c28Scenario{"", 0, true, false}, errRes)
+		accBad, _, tr1 := c28RunVerifier(cx, fn, args, c28Scenario{"", 0, false, true}, errRes, nil)
+		accGood, _, tr2 := c28RunVerifier(cx, fn, args, c28Scenario{"", 0, true, false}, errRes, nil)
 		if !tr1 && !tr2 && !accBad && accGood {
 			cx.isVerify[fn] = true
 		}
@@ -282,6 +293,53 @@ func (cx *c28Ctx) closeVerifiers() {
 					cx.reachV[fn] = true
 					changed = true
 					break
+				}
+			}
+			if cx.reachV[fn] {
+				continue
+			}
+			// a function that creates a verifying closure / method value reaches the verifier
+			// through it ...
+			kit.Instrs(fn, func(in ssa.Instruction) {
+				if mc, ok := in.(*ssa.MakeClosure); ok {
+					if g, ok := mc.Fn.(*ssa.Function); ok && cx.reachV[g] && !cx.reachV[fn] {
+						cx.reachV[fn] = true
+						changed = true
+					}
+				}
+			})
+		}
+		// ... and so do the package functions it hands function values (or structs carrying
+		// them) to
+		for _, fn := range fns {
+			if !cx.reachV[fn] {
+				continue
+			}
+			makes := false
+			kit.Instrs(fn, func(in ssa.Instruction) {
+				if mc, ok := in.(*ssa.MakeClosure); ok {
+					if g, ok := mc.Fn.(*ssa.Function); ok && cx.reachV[g] {
+						makes = true
+					}
+				}
+			})
+			if !makes {
+				continue
+			}
+			for _, c := range kit.Calls(fn) {
+				cal := kit.CalleeOf(c)
+				if cal.Static == nil || cx.reachV[cal.Static] || kit.FuncPkgPath(cal.Static) != kit.PkgPath(c28Flood) {
+					continue
+				}
+				for pi, prm := range cal.Static.Params {
+					if pi == 0 && cal.Static.Signature.Recv() != nil {
+						continue
+					}
+					if c28CarriesFunc(prm.Type(), 0) {
+						cx.reachV[cal.Static] = true
+						changed = true
+						break
+					}
 				}
 			}
 		}
@@ -320,6 +378,26 @@ func (cx *c28Ctx) closeVerifiers() {
 			}
 		}
 	}
+}
+
+// c28CarriesFunc: the type is a function type or a struct (by value or pointer) with a function-typed field.
+func c28CarriesFunc(t types.Type, depth int) bool {
+	if depth > 2 {
+		return false
+	}
+	switch u := t.Underlying().(type) {
+	case *types.Signature:
+		return true
+	case *types.Pointer:
+		return c28CarriesFunc(u.Elem(), depth+1)
+	case *types.Struct:
+		for i := 0; i < u.NumFields(); i++ {
+			if c28CarriesFunc(u.Field(i).Type(), depth+1) {
+				return true
+			}
+		}
+	}
+	return false
 }
 
 // c28StripBool normalises a boolean condition: removes !, ==true, !=false ... and reports the
@@ -676,7 +754,7 @@ func c28R1R2(cx *c28Ctx, r *kit.Report) {
 		roots = append(roots, pf)
 	}
 	r.Count("wire_command_decoder_functions", nDec)
-	if !r.Require(nDec >= 3, "floor: expected >= 3 agent functions decoding SLEEP_COMMAND / WAKE_COMMAND / QUEUED_STATE payloads, found %d", nDec) {
+	if !r.Require(nDec >= 1, "floor: no agent function decodes SLEEP_COMMAND / WAKE_COMMAND / QUEUED_STATE payloads") {
 		return
 	}
 	sc := &c28Scope{cx: cx, roots: rootSet, stop: map[*ssa.Function]bool{sleepFn: true, wakeFn: true}, memo: map[ssa.Instruction]int{}}
@@ -690,6 +768,7 @@ func c28R1R2(cx *c28Ctx, r *kit.Report) {
 		}
 	}
 
+	var sites []c28Site
 	// R1: state changes
 	nState := 0
 	for _, fn := range scoped {
@@ -708,9 +787,9 @@ func c28R1R2(cx *c28Ctx, r *kit.Report) {
 			nState++
 			ord[what]++
 			key := fmt.Sprintf("%s calls Manager.%s #%d", kit.FuncName(fn), what, ord[what])
-			r.Decide(sc.siteVerified(c, 0), "C28.R1", key, p.Pos(c.Pos()),
-				"the state change is dominated by a successful verifying predicate",
-				"a frame received from any peer reaches Manager."+what+"() without the command having passed signature/timestamp verification: with a signing key configured an unsigned or forged command changes the sleep state")
+			sites = append(sites, c28Site{c, "C28.R1", key,
+				"the state change happens only for a command that passed verification",
+				"a frame received from any peer reaches Manager." + what + "() without the command having passed signature/timestamp verification: with a signing key configured an unsigned or forged command changes the sleep state"})
 		}
 	}
 	r.Count("state_change_sites_in_wire_scope", nState)
@@ -741,19 +820,8 @@ func c28R1R2(cx *c28Ctx, r *kit.Report) {
 		}
 	}
 	r.Count("command_consumers_outside_wire_scope", nConsumers)
-	r.Require(nState >= 2, "floor: expected >= 2 Sleep/Wake call sites reachable from the wire decoders, found %d", nState)
+	r.Require(nState >= 1, "floor: no Sleep/Wake call site is reachable from the wire decoders")
 
-	// R2a: handlers
-	for _, h := range cx.handlers {
-		bad := cx.unverifiedTrueReturns(h)
-		pos := p.Pos(h.Pos())
-		if len(bad) > 0 && bad[0] != nil {
-			pos = p.Pos(bad[0].Pos())
-		}
-		r.Decide(len(bad) == 0, "C28.R2", kit.FuncName(h)+" returns true", pos,
-			"every possibly-true return is dominated by verifier == nil",
-			"the handler can report a command as accepted although the verifier did not return nil: the agent acts on an unsigned/invalid command")
-	}
 	// R2b: forwarding frame construction and pending-wake stores on wire-reachable paths
 	frameType := p.Field(c28Proto, "Frame", "Type")
 	sleepT, ok1 := p.ConstValue(c28Proto, "FrameSleepCommand")
@@ -776,13 +844,13 @@ func c28R1R2(cx *c28Ctx, r *kit.Report) {
 		if fmt.Sprint(k) == wakeT {
 			kind = "WAKE_COMMAND"
 		}
-		r.Decide(sc.siteVerified(acc.Instr, 0), "C28.R2", kit.FuncName(acc.Fn)+" builds "+kind+" frame", p.Pos(acc.Instr.Pos()),
+		sites = append(sites, c28Site{acc.Instr, "C28.R2", kit.FuncName(acc.Fn) + " builds " + kind + " frame",
 			"the frame is built only after verification (here or at every in-scope caller)",
-			"a "+kind+" frame is built and sent on a path from the wire decoders that does not pass verification: unsigned commands are forwarded through the mesh")
+			"a " + kind + " frame is built and sent on a path from the wire decoders that does not pass verification: unsigned commands are forwarded through the mesh"})
 	}
 	r.Count("command_frame_constructions", nFwd)
 	r.Count("command_frame_constructions_in_wire_scope", nFwdScope)
-	r.Require(nFwdScope >= 2, "floor: expected >= 2 SLEEP/WAKE_COMMAND frame constructions reachable from the wire decoders, found %d", nFwdScope)
+	r.Require(nFwdScope >= 1, "floor: no SLEEP/WAKE_COMMAND frame construction is reachable from the wire decoders")
 	nPend := 0
 	for _, f := range kit.StructFields(cx.flooder) {
 		if c28IsCmdPtr(f.Type()) == "" {
@@ -795,12 +863,116 @@ func c28R1R2(cx *c28Ctx, r *kit.Report) {
 			}
 			nPend++
 			ord[acc.Fn]++
-			r.Decide(sc.siteVerified(acc.Instr, 0), "C28.R2", fmt.Sprintf("%s stores %s #%d", kit.FuncName(acc.Fn), f.Name(), ord[acc.Fn]), p.Pos(acc.Instr.Pos()),
+			sites = append(sites, c28Site{acc.Instr, "C28.R2", fmt.Sprintf("%s stores %s #%d", kit.FuncName(acc.Fn), f.Name(), ord[acc.Fn]),
 				"the pending command is stored only after verification",
-				"a command is remembered for forwarding to newly connected peers without having passed verification")
+				"a command is remembered for forwarding to newly connected peers without having passed verification"})
 		}
 	}
 	r.Count("pending_command_stores_in_wire_scope", nPend)
+
+	// ---- decision: abstract evaluation from the wire roots; a site must be unreachable while
+	// crypto.Verify rejects the command or its timestamp is outside the window. Sites the
+	// evaluation does not reach even for a good command fall back to the dominance rule.
+	isSite := map[ssa.Instruction]bool{}
+	onPath := map[*ssa.Function]bool{}
+	for _, st := range sites {
+		isSite[st.in] = true
+		onPath[st.in.Parent()] = true
+	}
+	for changed := true; changed; {
+		changed = false
+		for fn := range onPath {
+			if fn.Parent() != nil && !onPath[fn.Parent()] {
+				onPath[fn.Parent()] = true
+				changed = true
+			}
+			for _, e := range p.CallEdgesInto(fn) {
+				if e.Caller == nil || !inScope(e.Caller.Func) || onPath[e.Caller.Func] {
+					continue
+				}
+				onPath[e.Caller.Func] = true
+				changed = true
+			}
+		}
+	}
+	// entry points of the evaluation: the in-scope functions leading to a site that no other such
+	// function calls (the frame dispatcher; a decoder when nothing dispatches to it)
+	var tops []*ssa.Function
+	for _, fn := range p.RepoFuncs() {
+		if !onPath[fn] || fn.Parent() != nil || !inScope(fn) {
+			continue
+		}
+		called := false
+		for _, e := range p.CallEdgesInto(fn) {
+			if e.Caller != nil && e.Caller.Func != fn && onPath[e.Caller.Func] && inScope(e.Caller.Func) {
+				called = true
+			}
+		}
+		if !called {
+			tops = append(tops, fn)
+		}
+	}
+	r.Count("wire_evaluation_entry_points", len(tops))
+	explore := func(scn c28Scenario) (map[ssa.Instruction]bool, bool) {
+		hit := map[ssa.Instruction]bool{}
+		trunc := false
+		for _, root := range tops {
+			obs := &c28Obs{}
+			cfg := cx.pxFlood(scn, obs, func(callee *ssa.Function) bool {
+				return onPath[callee] && !sc.stop[callee]
+			})
+			cfg.MaxSteps = 6_000_000
+			cfg.Visit = func(fr *kit.PxFrame, in ssa.Instruction) bool {
+				if isSite[in] {
+					hit[in] = true
+				}
+				return true
+			}
+			if run := kit.PathxExplore(root, c28BindArgs(root), cfg); run.Truncated {
+				trunc = true
+			}
+		}
+		return hit, trunc
+	}
+	good, tr0 := explore(c28Scenario{"", 0, true, false})
+	bad := map[ssa.Instruction]string{}
+	trunc := tr0
+	for _, scn := range []c28Scenario{
+		{"crypto.Verify rejects the signature", 0, false, true},
+		{"the timestamp is window+1s in the past", c28Win + 1, true, true},
+		{"the timestamp is window+1s in the future", -(c28Win + 1), true, true},
+	} {
+		h, tr := explore(scn)
+		trunc = trunc || tr
+		for in := range h {
+			if bad[in] == "" {
+				bad[in] = scn.name
+			}
+		}
+	}
+	if trunc {
+		r.Floor("checker: abstract evaluation from the wire roots exceeded its step budget")
+	}
+	nSemantic := 0
+	for _, st := range sites {
+		pos := p.Pos(st.in.Pos())
+		if good[st.in] {
+			nSemantic++
+			r.Decide(bad[st.in] == "", st.rule, st.key, pos, st.okMsg+" (unreachable from the wire roots while verification fails)",
+				"reachable from the wire roots although "+bad[st.in]+": "+st.badMsg)
+			continue
+		}
+		r.Decide(sc.siteVerified(st.in, 0), st.rule, st.key, pos, st.okMsg+" (dominated by a verifying predicate)", st.badMsg)
+	}
+	r.Count("sites_decided_by_abstract_evaluation", nSemantic)
+}
+
+type c28Site struct {
+	in     ssa.Instruction
+	rule   string
+	key    string
+	okMsg  string
+	badMsg string
 }
 
 // c28HoldsReceivedCommand: fn has a value of a wire command type that is not its own composite literal.
@@ -863,8 +1035,7 @@ type c28Scenario struct {
 
 func c28R3(cx *c28Ctx, r *kit.Report) {
 	p := cx.p
-	const W = int64(300)
-	const ts = int64(2_000_000)
+	const W = c28Win
 	scen := []c28Scenario{
 		{"valid signature, timestamp window+1s in the past", W + 1, true, true},
 		{"valid signature, timestamp window+1s in the future", -(W + 1), true, true},
@@ -876,17 +1047,13 @@ func c28R3(cx *c28Ctx, r *kit.Report) {
 		{"invalid signature, timestamp half a window ahead", -W / 2, false, true},
 		{"valid signature, fresh timestamp", 0, true, false},
 	}
+	obs := &c28Obs{}
 	for _, fn := range cx.handlers {
 		fname := kit.FuncName(fn)
-		// argument binding by type
-		args := make([]kit.PxVal, len(fn.Params))
+		args := c28BindArgs(fn)
 		haveCmd := false
-		for i, prm := range fn.Params {
-			switch {
-			case i == 0 && fn.Signature.Recv() != nil:
-				args[i] = kit.PxS("recv")
-			case c28IsCmdPtr(prm.Type()) != "":
-				args[i] = kit.PxS("cmd")
+		for _, a := range args {
+			if a.K == kit.PxSym && a.Sym == "cmd" {
 				haveCmd = true
 			}
 		}
@@ -900,8 +1067,9 @@ func c28R3(cx *c28Ctx, r *kit.Report) {
 			continue
 		}
 		positive := false
+		unverifiedTrue := false
 		for _, sc := range scen {
-			accepted, rejected, truncated := c28RunVerifier(cx, fn, args, ts, W, sc, false)
+			accepted, rejected, truncated := c28RunVerifier(cx, fn, args, sc, false, obs)
 			if truncated {
 				r.Floor("checker: abstract evaluation of %s exceeded its step budget", fname)
 				continue
@@ -910,173 +1078,229 @@ func c28R3(cx *c28Ctx, r *kit.Report) {
 				positive = accepted
 				continue
 			}
+			if accepted && !sc.sigValid {
+				unverifiedTrue = true
+			}
 			key := fname + ": " + sc.name
 			r.Decide(!accepted, "C28.R3", key, p.Pos(fn.Pos()),
 				fmt.Sprintf("not accepted on any path (%d rejecting path ends)", rejected),
 				"with a signing key configured the handler accepts a command in this case: an attacker (or a recorded command) changes the sleep state outside what the signature/timestamp window allows")
 		}
 		r.Require(positive, "checker: abstract evaluation of %s finds no accepting path for a fresh, validly signed command (model does not fit the code)", fname)
+		// R2 (handlers): the same evaluation, read as "true only after verification"
+		r.Decide(!unverifiedTrue, "C28.R2", fname+" returns true", p.Pos(fn.Pos()),
+			"no path returns true when crypto.Verify rejects the command",
+			"the handler can report a command as accepted although the verifier did not return nil: the agent acts on an unsigned/invalid command")
 	}
+	// crypto.Verify argument provenance, as observed on every explored path
+	r.Require(obs.verifyCalls > 0, "checker: no explored path of the handlers reaches crypto.Verify (model does not fit the code)")
+	var poss []string
+	for pos := range obs.badArgs {
+		poss = append(poss, pos)
+	}
+	sort.Strings(poss)
 	for _, fn := range cx.verifyFn {
 		fname := kit.FuncName(fn)
-		// crypto.Verify argument provenance
 		for i, call := range cx.cvCalls[fn] {
 			key := fmt.Sprintf("%s crypto.Verify #%d arguments", fname, i+1)
-			detail, ok := c28VerifyArgs(cx, call)
-			r.Decide(ok, "C28.R3", key, p.Pos(call.Pos()), detail,
-				detail+": the signature is not checked against the configured key over the command's own signed fields")
+			bad := obs.badArgs[p.Pos(call.Pos())]
+			r.Decide(bad == "", "C28.R3", key, p.Pos(call.Pos()),
+				"on every explored path: key = configured signing key, message = cmd.SignableBytes(), signature = cmd.Signature of the same command",
+				bad+": the signature is not checked against the configured key over the command's own signed fields")
 		}
 	}
 	r.Count("verifier_functions", len(cx.verifyFn))
 }
 
-// c28RunVerifier explores a handler (or verifier) under one scenario. accepted = some path
-// returns true/nil (or an undetermined result); rejected = number of rejecting returns.
-func c28RunVerifier(cx *c28Ctx, fn *ssa.Function, args []kit.PxVal, ts, W int64, sc c28Scenario, errRes bool) (accepted bool, rejected int, truncated bool) {
+// c28Obs collects what an exploration observed at crypto.Verify.
+type c28Obs struct {
+	verifyCalls int
+	badArgs     map[string]string // position -> what is wrong
+	present     int               // seen-cache lookups: 0 unknown, 1 present, 2 absent (used by C29)
+	cache       *types.Var        // the seen-cache field (C29)
+}
+
+const (
+	c28TS  = int64(2_000_000) // sample command timestamp (s)
+	c28Win = int64(300)       // sample window (s)
+)
+
+// pxFlood is the abstract-evaluation configuration shared by C28 and C29: a key is
+// configured, the window is c28Win, the command under consideration is the symbolic object
+// "cmd" (Timestamp = c28TS, other fields symbolic values "$origin", "$id", "$sig"), the clock
+// is c28TS+dSec, crypto.Verify answers sc.sigValid (and its arguments are checked to be the
+// configured key, cmd.SignableBytes() and cmd.Signature). extra decides which additional
+// functions are interpreted.
+func (cx *c28Ctx) pxFlood(sc c28Scenario, obs *c28Obs, extra func(*ssa.Function) bool) *kit.PxConfig {
 	const sec = int64(1e9)
-	cfg := &kit.PxConfig{
-		Now: (ts + sc.dSec) * sec,
+	p := cx.p
+	if obs.badArgs == nil {
+		obs.badArgs = map[string]string{}
+	}
+	return &kit.PxConfig{
+		Now:      (c28TS + sc.dSec) * sec,
+		MaxDepth: 10,
 		Load: func(fr *kit.PxFrame, sym string, at ssa.Instruction) (kit.PxVal, bool) {
 			switch {
 			case cx.keySyms[sym]:
 				return kit.PxS("pubkey"), true
+			case sym == "pubkey":
+				return kit.PxS("$pubkey"), true
 			case cx.winSyms[sym]:
-				return kit.PxI(W * sec), true
+				return kit.PxI(c28Win * sec), true
 			case sym == "cmd.Timestamp":
-				return kit.PxI(ts), true
+				return kit.PxI(c28TS), true
+			case sym == "cmd.Signature":
+				return kit.PxS("$sig"), true
+			case sym == "cmd.OriginAgent":
+				return kit.PxS("$origin"), true
+			case sym == "cmd.CommandID":
+				return kit.PxS("$id"), true
+			case sym == "qs.SleepCmd", sym == "qs.WakeCmd":
+				return kit.PxS("cmd"), true
+			case strings.HasPrefix(sym, "agent."):
+				// the agent's flooder is the Flooder under consideration
+				if v, ok := at.(ssa.Value); ok {
+					if pt, ok := v.Type().(*types.Pointer); ok {
+						if n, ok := pt.Elem().(*types.Named); ok && n == cx.flooder {
+							return kit.PxS("recv"), true
+						}
+					}
+				}
 			}
 			return kit.PxVal{}, false
 		},
 		Call: func(fr *kit.PxFrame, c ssa.CallInstruction, a []kit.PxVal) ([]kit.PxVal, bool) {
 			cal := kit.CalleeOf(c)
-			if cal.Is("internal/crypto", "", "Verify") {
+			switch {
+			case cal.Is("internal/crypto", "", "Verify"):
+				obs.verifyCalls++
+				pos := p.Pos(c.Pos())
+				if len(a) == 3 {
+					switch {
+					case !(a[0].K == kit.PxSym && a[0].Sym == "$pubkey"):
+						obs.badArgs[pos] = "the public key argument is not the configured signing key"
+					case !(a[1].K == kit.PxSym && a[1].Sym == "$signable"):
+						obs.badArgs[pos] = "the message argument is not the command's SignableBytes()"
+					case !(a[2].K == kit.PxSym && a[2].Sym == "$sig"):
+						obs.badArgs[pos] = "the signature argument is not the command's Signature field"
+					}
+				} else {
+					obs.badArgs[pos] = "crypto.Verify does not take (key, message, signature)"
+				}
+				if obs.badArgs[pos] != "" {
+					return []kit.PxVal{kit.PxB(true)}, true // not a check of this command: worst case
+				}
 				return []kit.PxVal{kit.PxB(sc.sigValid)}, true
+			case cal.Pkg == kit.PkgPath(c28Proto) && cal.Name == "SignableBytes":
+				if len(a) >= 1 && a[0].K == kit.PxSym && a[0].Sym == "cmd" {
+					return []kit.PxVal{kit.PxS("$signable")}, true
+				}
+				return []kit.PxVal{kit.PxS("$signable-of-another-value")}, true
+			case cal.Name == "IsZeroSignature":
+				if sc.sigValid {
+					return []kit.PxVal{kit.PxB(false)}, true // a valid signature is not all-zero
+				}
+				return []kit.PxVal{{}}, true
+			case cal.Pkg == kit.PkgPath(c28Proto) && (cal.Name == "DecodeSleepCommand" || cal.Name == "DecodeWakeCommand"):
+				return []kit.PxVal{kit.PxS("cmd"), {K: kit.PxNil}}, true
+			case cal.Pkg == kit.PkgPath(c28Proto) && cal.Name == "DecodeQueuedState":
+				return []kit.PxVal{kit.PxS("qs"), {K: kit.PxNil}}, true
 			}
-			if cal.Name == "IsZeroSignature" && sc.sigValid {
-				return []kit.PxVal{kit.PxB(false)}, true // a valid signature is not all-zero
+			return nil, false
+		},
+		Compute: func(fr *kit.PxFrame, v ssa.Value) ([]kit.PxVal, bool) {
+			if obs.cache == nil || obs.present == 0 {
+				return nil, false
+			}
+			if x, ok := v.(*ssa.Lookup); ok {
+				if f, _ := kit.LoadedField(x.X); f == obs.cache {
+					if x.CommaOk {
+						if obs.present == 1 {
+							return []kit.PxVal{kit.PxS("entry"), kit.PxB(true)}, true
+						}
+						return []kit.PxVal{{K: kit.PxNil}, kit.PxB(false)}, true
+					}
+					if obs.present == 1 {
+						return []kit.PxVal{kit.PxS("entry")}, true
+					}
+					return []kit.PxVal{{K: kit.PxNil}}, true
+				}
 			}
 			return nil, false
 		},
 		Descend: func(c ssa.CallInstruction, callee *ssa.Function) bool {
-			// only the verification machinery is interpreted; marking, logging and
-			// forwarding stay unknown
-			if !cx.reachV[callee] {
+			if cx.reachV[callee] || cx.smallHelper(callee) {
+				return true
+			}
+			return extra != nil && extra(callee)
+		},
+	}
+}
+
+// smallHelper: a small value-returning function of the flood package (clock offset, cache-full
+// test, recording step...). Interpreting it costs little and keeps predicates exact.
+func (cx *c28Ctx) smallHelper(fn *ssa.Function) bool {
+	if kit.FuncPkgPath(fn) != kit.PkgPath(c28Flood) || len(fn.Blocks) == 0 || len(fn.Blocks) > 20 {
+		return false
+	}
+	if fn.Signature.Results().Len() == 0 {
+		return false
+	}
+	for _, b := range fn.Blocks { // loops only multiply paths; their results stay unknown
+		for _, sc := range b.Succs {
+			if sc.Dominates(b) {
 				return false
 			}
-			for _, h := range cx.handlers {
-				if h == callee {
-					return false
-				}
+		}
+	}
+	return true
+}
+
+// c28BindArgs binds receiver and command parameters of a flood/agent function.
+func c28BindArgs(fn *ssa.Function) []kit.PxVal {
+	args := make([]kit.PxVal, len(fn.Params))
+	for i, prm := range fn.Params {
+		switch {
+		case i == 0 && fn.Signature.Recv() != nil:
+			if strings.HasSuffix(kit.FuncPkgPath(fn), "/internal/agent") {
+				args[i] = kit.PxS("agent")
+			} else {
+				args[i] = kit.PxS("recv")
 			}
-			return true
-		},
-		Return: func(fr *kit.PxFrame, ret *ssa.Return, res []kit.PxVal) {
-			if ret.Block() == fn.Recover {
-				return
-			}
-			if len(res) == 0 {
-				return
-			}
-			v := res[len(res)-1]
-			if !errRes {
-				v = res[0]
-			}
-			switch {
-			case errRes && (v.K == kit.PxNonNil || v.K == kit.PxSym):
-				rejected++
-			case !errRes && v.K == kit.PxBool && !v.B:
-				rejected++
-			default:
-				accepted = true
-			}
-		},
+		case c28IsCmdPtr(prm.Type()) != "":
+			args[i] = kit.PxS("cmd")
+		}
+	}
+	return args
+}
+
+// c28RunVerifier explores a handler (or verifier) under one scenario. accepted = some path
+// returns true/nil (or an undetermined result); rejected = number of rejecting returns.
+func c28RunVerifier(cx *c28Ctx, fn *ssa.Function, args []kit.PxVal, sc c28Scenario, errRes bool, obs *c28Obs) (accepted bool, rejected int, truncated bool) {
+	if obs == nil {
+		obs = &c28Obs{}
+	}
+	cfg := cx.pxFlood(sc, obs, nil)
+	cfg.Return = func(fr *kit.PxFrame, ret *ssa.Return, res []kit.PxVal) {
+		if ret.Block() == fn.Recover || len(res) == 0 {
+			return
+		}
+		v := res[len(res)-1]
+		if !errRes {
+			v = res[0]
+		}
+		switch {
+		case errRes && v.NonNilLike():
+			rejected++
+		case !errRes && v.K == kit.PxBool && !v.B:
+			rejected++
+		default:
+			accepted = true
+		}
 	}
 	run := kit.PathxExplore(fn, args, cfg)
 	return accepted, rejected, run.Truncated
-}
-
-// c28VerifyArgs checks the provenance of the three crypto.Verify arguments.
-func c28VerifyArgs(cx *c28Ctx, call *ssa.Call) (string, bool) {
-	p := cx.p
-	if len(call.Call.Args) != 3 {
-		return "crypto.Verify does not take (key, message, signature)", false
-	}
-	opts := kit.SliceOpts{Prog: p, FollowParams: true}
-	// key: only the Flooder's key field (or FloodConfig.SigningPublicKey)
-	keyOK, keyBad := false, ""
-	for _, s := range kit.Slice(call.Call.Args[0], opts) {
-		switch s.Kind {
-		case kit.SrcField:
-			if s.Field != nil && (c28IsKeyPtr(s.Field.Type()) && c28FieldOwner(s.Field, cx.flooder) || s.Field.Name() == "SigningPublicKey") {
-				keyOK = true
-			} else if s.Field != nil && !c28IsConfigField(s.Field) {
-				keyBad = "field " + s.Field.Name()
-			}
-		case kit.SrcParam:
-			if s.Fn == nil || s.Fn.Signature.Recv() == nil || s.Value != ssa.Value(s.Fn.Params[0]) {
-				keyBad = "parameter " + s.Value.Name()
-			}
-		case kit.SrcCall, kit.SrcGlobal, kit.SrcConst, kit.SrcWritten, kit.SrcTop:
-			keyBad = s.String()
-		}
-	}
-	if !keyOK || keyBad != "" {
-		return "the public key argument does not come (only) from the configured signing key (" + keyBad + ")", false
-	}
-	// message: SignableBytes() of a command; signature: Signature field of a command
-	var msgRecv, sigBase []ssa.Value
-	msgBad := ""
-	for _, s := range kit.Slice(call.Call.Args[1], opts) {
-		switch s.Kind {
-		case kit.SrcCall:
-			cal := kit.CalleeOf(s.Call)
-			if cal.Name == "SignableBytes" && cal.Pkg == kit.PkgPath(c28Proto) {
-				msgRecv = append(msgRecv, kit.Receiver(s.Call))
-			} else {
-				msgBad = s.String()
-			}
-		case kit.SrcConst, kit.SrcGlobal, kit.SrcWritten, kit.SrcField, kit.SrcTop, kit.SrcLookup:
-			msgBad = s.String()
-		}
-	}
-	if len(msgRecv) == 0 || msgBad != "" {
-		return "the message argument is not exactly the command's SignableBytes() (" + msgBad + ")", false
-	}
-	sigBad := ""
-	for _, s := range kit.Slice(call.Call.Args[2], opts) {
-		switch s.Kind {
-		case kit.SrcField:
-			if s.Field != nil && s.Field.Name() == "Signature" {
-				sigBase = append(sigBase, s.Base)
-			} else {
-				sigBad = s.String()
-			}
-		case kit.SrcConst, kit.SrcGlobal, kit.SrcCall, kit.SrcWritten, kit.SrcTop, kit.SrcLookup:
-			sigBad = s.String()
-		}
-	}
-	if len(sigBase) == 0 || sigBad != "" {
-		return "the signature argument is not exactly the command's Signature field (" + sigBad + ")", false
-	}
-	// same command object on both sides (compared by root value)
-	roots := func(vs []ssa.Value) map[ssa.Value]bool {
-		out := map[ssa.Value]bool{}
-		for _, v := range vs {
-			out[c28Root(v)] = true
-		}
-		return out
-	}
-	mr, sr := roots(msgRecv), roots(sigBase)
-	same := len(mr) == len(sr)
-	for k := range mr {
-		if !sr[k] {
-			same = false
-		}
-	}
-	if !same {
-		return "SignableBytes() and Signature are taken from different command values", false
-	}
-	return "key = configured signing key, message = cmd.SignableBytes(), signature = cmd.Signature of the same command", true
 }
 
 func c28FieldOwner(f *types.Var, n *types.Named) bool {
